@@ -93,6 +93,9 @@ class Context:
         if getattr(self, '_boxed', None) is None:
             self._boxed = True
             self._base = self._base + self.box_axioms()
+            for pl in self.plugins:
+                if hasattr(pl, 'axioms'):
+                    self._base = self._base + pl.axioms()
         if light:
             return self._base + self.fact_axioms
         return self._base + self.fact_axioms + self.spec_axioms + self.lemma_axioms
@@ -198,6 +201,9 @@ class Context:
             return VBuiltin('exc-class:' + dotted)
         if ('<ext>', dotted) in self.registry.contracts:
             return VBuiltin('extcontract:' + dotted)
+        last = dotted.split('.')[-1]
+        if last.endswith('Exception') or last.endswith('Error'):
+            return VBuiltin('exc-class:' + last)        # an external exception class: only its name matters
         if dotted in self.registry.externs:
             return VBuiltin(dotted)
         if dotted == 'sys.version_info':
@@ -294,6 +300,10 @@ class Context:
 
     def exc_isinstance(self, cls, target):
         """cls: name of raised class (builtin name or repo class name); target: str name or ClassInfo."""
+        if isinstance(target, str) and cls.split('.')[-1] == target.split('.')[-1]:
+            return True
+        if isinstance(target, ClassInfo) and cls.split('.')[-1] == target.name:
+            return True
         if isinstance(target, ClassInfo):
             # repo-defined exception class
             ci = self.find_exc_class(cls)
@@ -349,6 +359,16 @@ class Context:
         return None
 
     def index_hook(self, I, obj, idx, node):
+        if isinstance(obj, VOpaque) and obj.label.startswith('row|') and getattr(self, 'sql', None) is not None:
+            _, store, sel = obj.label.split('|')
+            sch = self.sql.schema_for(store)
+            cols = sel.split(',')
+            k = VInt(I.as_int(idx, node)).const()
+            if k is None or not (0 <= k < len(cols)):
+                I.require(False, 'index', node, exc='IndexError')
+                raise PyExc(VExc('IndexError', origin='row index'))
+            c = cols[k]
+            return self.sql.unbox(I, self.sql.col(sch, obj.t, c), sch.types[sch.idx(c)])
         return None
 
     def len_hook(self, I, v, node):
@@ -379,6 +399,8 @@ class Context:
 
     def ext_getattr(self, I, obj, cell, name, node):
         q = '%s.%s' % (cell.extname, name)
+        if cell.extname in ('Connection', 'Cursor') and getattr(self, 'sql', None) is not None:
+            return VBuiltin('sql:' + q, obj)
         if ('<ext>', q) in self.registry.contracts:
             return VBuiltin('extcontract:' + q, obj)
         return VBuiltin('extattr:' + name, obj)
@@ -420,12 +442,35 @@ class Context:
         self.apply_modifies(I, contract, env)
         res = NONE
         if contract.ret is not None and contract.ret.name != 'NoneT':
-            res = self.make_symbolic(I, contract.ret, 'r_' + q.replace('.', '_'))
+            if contract.kw.get('pure'):
+                res = self.pure_result(I, q, contract, [env[n] for n in names], node)
+            else:
+                res = self.make_symbolic(I, contract.ret, 'r_' + q.replace('.', '_'))
         for c in contract.of('ensures'):
             v = self.eval_spec(I, c.args[0], env, contract.sidecar, pre, entry_env, result=res, has_result=True)
             I.assume(I.truthy(v))
-        I.emit(q, [self_val] + list(args), kwargs, res)
+        if not contract.kw.get('pure'):
+            I.emit(q, [self_val] + list(args), kwargs, res)
         return res
+
+    def pure_result(self, I, q, contract, vals, node):
+        """An external function assumed to be a pure function of its arguments: its result is f(args)."""
+        def bx(v):
+            if isinstance(v, VOpt):
+                return z3.If(v.is_none, self.NONE_OBJ, bx(v.val))
+            if isinstance(v, VNone):
+                return self.NONE_OBJ
+            if isinstance(v, VSeq) and v.th is S:
+                return self.sql_box_str(v.t)
+            if isinstance(v, VInt):
+                return self.uf('box_int', T.I, T.Obj)(v.t)
+            return self.obj_term(I, v, node)
+        ts = [bx(v) for v in vals]
+        f = self.uf('pure.' + q, *([T.Obj] * len(ts) + [self.sort_of(contract.ret)]))
+        return self.from_term(I, f(*ts), contract.ret)
+
+    def sql_box_str(self, t):
+        return self.uf('box_str', S.sort, T.Obj)(t)
 
     def instantiate_hook(self, I, info, args, kwargs, node):
         return None
@@ -498,6 +543,8 @@ class Context:
 
     def map_key_term(self, I, m, key, node):
         key = I.unwrap(key, node)
+        if m.th.K.eq(T.Obj):
+            return self.obj_term(I, key, node)
         if m.th.K.eq(S.sort) and isinstance(key, VSeq):
             return key.t
         if m.th.K.eq(T.I) and isinstance(key, VInt):
@@ -830,7 +877,7 @@ class Context:
             th = T.SeqTheory.registry[str(SORT_OF[n])]
             return VSeq(t, KIND_OF[n], th, ekind={'SeqBytes': 'bytes', 'SeqStr': 'str', 'ListBytes': 'bytes'}.get(n))
         if n == 'Opaque':
-            return VOpaque(t)
+            return VOpaque(t, ty.args[0] if ty.args else '')
         for pl in self.plugins:
             r = pl.from_term(I, t, ty)
             if r is not None:
@@ -970,7 +1017,20 @@ class Context:
             tmp.counter = saved.counter + 100000
             I.st = tmp
             try:
-                fr = Frame(dict(sp.entry_env), frame.module, sidecar=frame.sidecar)
+                e0 = dict(sp.entry_env)
+                f2 = frame
+                chain = []
+                while f2 is not None:
+                    chain.append(f2.env)
+                    f2 = f2.parent
+                for envx in reversed(chain[:-1] if len(chain) > 1 else []):
+                    pass
+                # locals of helper functions (their parameters) stay visible inside old(...)
+                if frame.env is not sp.entry_env:
+                    for k_, v_ in frame.env.items():
+                        if k_ not in e0 or frame.parent is not None:
+                            e0[k_] = v_
+                fr = Frame(e0, frame.module, sidecar=frame.sidecar)
                 fr.spec = SpecCtx(old_state=sp.old_state, entry_env=sp.entry_env)
                 I.pure += 1
                 try:
@@ -1106,6 +1166,14 @@ class Context:
                 self.qcount += 1
                 return VOpaque(z3.Const('missing-event!%d' % self.qcount, T.Obj), 'missing')
             return evs[k].recv[0]
+        if fn == 'pure_call':
+            q = self.const_str(I, I.ev(node.args[0], frame))
+            contract = self.registry.contracts[('<ext>', q)]
+            vals = [I.ev(a, frame) for a in node.args[1:]]
+            names = [p for p, _ in contract.params]
+            while len(vals) < len(names):
+                vals.append(NONE)
+            return self.pure_result(I, q, contract, vals, node)
         if fn == 'getter':
             name = self.const_str(I, I.ev(node.args[0], frame))
             d = self.registry.externs.get(name) or {}
@@ -1491,6 +1559,20 @@ class Context:
                         pass
                     else:
                         raise Unsupported('modifies(%s): not a mutable heap value' % a.id)
+                elif isinstance(a, ast.Attribute) and isinstance(a.value, ast.Attribute) and isinstance(a.value.value, ast.Name):
+                    outer = I.unwrap(env[a.value.value.id])
+                    obj = I.unwrap(I.cell(outer).fields[a.value.attr])
+                    c = I.cell(obj)
+                    cur = c.fields.get(a.attr)
+                    if cur is None:
+                        raise Unsupported('modifies(%s): unknown field' % ast.unparse(a))
+                    if isinstance(cur, VMap):
+                        nm = VMap(I.fresh('hv_' + a.attr, cur.th.sort), cur.th, cur.kkind, cur.vkind)
+                        I.st.heap[obj.loc] = c.set(a.attr, nm)
+                    elif isinstance(cur, VRef) and (I.is_list(cur) or I.is_dict(cur)):
+                        I.havoc_ref(cur)
+                    else:
+                        I.st.heap[obj.loc] = c.set(a.attr, self.loops.havoc_value(I, cur, a.attr))
                 elif isinstance(a, ast.Attribute) and isinstance(a.value, ast.Name):
                     obj = I.unwrap(env[a.value.id])
                     c = I.cell(obj)
@@ -1550,6 +1632,11 @@ class Context:
                         I.prove('%s:frame[%s]' % (q, path), 'frame', False, contract.node,
                                 detail='%s is modified (dict rebuilt) but not listed under modifies(...)' % path)
                     return
+                return
+            if isinstance(cur_v, VMap) and isinstance(old_v, VMap):
+                if depth > 0 and not z3.eq(cur_v.t, old_v.t):
+                    I.prove('%s:frame[%s]' % (q, path), 'frame', cur_v.t == old_v.t, contract.node,
+                            detail='%s is modified but not listed under modifies(...)' % path)
                 return
             if type(cur_v) is type(old_v) and isinstance(cur_v, (VInt, VBool, VSeq, VOpaque)):
                 if depth == 0:
